@@ -292,8 +292,25 @@ def replay_bc(mesh, kind, seed, sub=None, swapped=None):
     return {"violates": worst > 1e-11, "max_jump": worst, "where": where, "dofs": int(T.shape[1])}
 
 
+def replay_bc_raises(mesh, kind, seed, sub=None, swapped=None):
+    try:
+        replay_bc(mesh, kind, seed, sub, swapped)
+        return {"violates": False}
+    except Exception as ex:  # noqa
+        return {"violates": True, "observed": "%s: %s" % (type(ex).__name__, str(ex)[:200])}
+
+
 def ob_bc(mesh, kind, seed, sub=None, swapped=None):
-    r = replay_bc(mesh, kind, seed, sub, swapped)
+    try:
+        r = replay_bc(mesh, kind, seed, sub, swapped)
+    except Exception as ex:  # noqa: constructing a BC / RBC space with documented options on a valid grid must not raise
+        import traceback as _tb
+
+        if "/checks/" in "".join(_tb.format_tb(ex.__traceback__)[-1:]):
+            raise
+        return violated("constructing %s on %s (support %s, swapped normals %s) raises %s: %s" % (kind, mesh, sub, swapped, type(ex).__name__, str(ex)[:160]),
+                        witness={"mesh": mesh, "kind": kind, "support": sub}, signature="bc-conformity/%s/raises" % kind,
+                        replay={"callable": "checks.c09:replay_bc_raises", "kwargs": {"mesh": mesh, "kind": kind, "seed": seed, "sub": sub, "swapped": swapped}, "confirmed": True})
     if r["violates"]:
         return violated("%s on %s (perturbation seed %d, support %s): %s component of basis function %d jumps by %.3g across barycentric edge %d"
                         % (kind, mesh, seed, sub, "normal" if kind == "BC" else "tangential", r["where"]["dof"], r["max_jump"], r["where"]["barycentric_edge"]),
